@@ -34,6 +34,7 @@ func checkC14(c *Ctx, r *Report) {
 	renderDM(c, r)
 	renderOneD(c, r)
 	renderMargins(c, r)
+	checkMarginNonNegative(c, r)
 	checkWriterStateless(c, r)
 	checkWholeOps(c, r) // SetRegion's own bit arithmetic (same obligations as under C16)
 	r.Note("not decided: that sampling block centres returns the module matrix is a consequence of these terms plus SetRegion's contract")
@@ -577,5 +578,72 @@ func checkWriterStateless(c *Ctx, r *Report) {
 	r.Extra("writer_field_stores_on_encode_paths", n)
 	if bad == 0 {
 		r.Pass("W-WRITER", "encode paths", "", fmt.Sprintf("%d functions reachable from %d Encode entry points; %d stores into writer-typed objects, all into objects allocated in the same function", len(reach), len(roots), n))
+	}
+}
+
+// M-MARGIN: a negative quiet zone never reaches the size arithmetic
+func checkMarginNonNegative(c *Ctx, r *Report) {
+	r.Rule("M-MARGIN", "the quiet zone the QR and 1-D renderers compute their sizes with is not negative: in renderResult / onedWriter_renderResult every use of the margin parameter is dominated by a test that excludes negative values (error exit), or every caller passes a value so tested - with a negative margin, symbol + margin is smaller than the symbol and the returned matrix clips it", 2)
+	for _, t := range []struct {
+		rel, fn string
+		param   int
+	}{{"qrcode", "renderResult", 3}, {"oned", "onedWriter_renderResult", 3}} {
+		f := c.ssaFunc(t.rel, t.fn)
+		key := t.rel + "." + t.fn
+		if f == nil || len(f.Params) <= t.param {
+			r.AnchorLost("M-MARGIN", key, "function not found")
+			continue
+		}
+		r.Analysed(key)
+		p := f.Params[t.param]
+		bad := ""
+		for _, ref := range *p.Referrers() {
+			in, ok := ref.(ssa.Instruction)
+			if !ok {
+				continue
+			}
+			// the guard's own comparison is not a use that needs protection
+			if bo, isB := ref.(*ssa.BinOp); isB {
+				switch bo.Op {
+				case token.LSS, token.LEQ, token.GTR, token.GEQ, token.EQL, token.NEQ:
+					continue
+				}
+			}
+			if _, isDbg := ref.(*ssa.DebugRef); isDbg {
+				continue
+			}
+			// variadic argument packs of error messages do not compute sizes
+			if _, isMI := ref.(*ssa.MakeInterface); isMI {
+				continue
+			}
+			facts := intFactsAt(in.Block())
+			if !provablyNonNeg(p, facts, 0) {
+				bad = fmt.Sprintf("the margin is used at %s without a dominating test that it is not negative", c.pos(in.Pos()))
+				break
+			}
+		}
+		if bad != "" {
+			// (b) every caller passes a value known to be non-negative at the call
+			n := c.CG().Nodes[f]
+			all := n != nil && len(n.In) > 0
+			if all {
+				for _, e := range n.In {
+					if e.Site == nil || len(e.Site.Common().Args) <= t.param {
+						all = false
+						break
+					}
+					a := e.Site.Common().Args[t.param]
+					if !provablyNonNeg(a, intFactsAt(e.Site.Block()), 0) {
+						all = false
+						bad += fmt.Sprintf("; the caller %s passes a value that may be negative (%s)", shortFn(e.Caller.Func), c.pos(e.Site.Pos()))
+						break
+					}
+				}
+			}
+			if all {
+				bad = ""
+			}
+		}
+		r.Check(bad == "", "M-MARGIN", key, c.pos(f.Pos()), bad)
 	}
 }
